@@ -14,4 +14,8 @@ PROPS = {
     "C07": P(["pipe"]),
     "C08": P(["pipe"]),
     "C09": P(["hostile", "pipe"], panic_owner="C09"),
+    "C10": P(["recover", "control"]),
+    "C11": P(["control", "recover", "pipe"], panic_owner="C11"),
+    "C12": P(["force", "control"], panic_owner="C12"),
+    "C13": P(["reconf"]),
 }
